@@ -240,6 +240,25 @@ def run_case(case, rec):
                unequal_keys=sorted({d.split(":")[0] + ":" + c["key"] for d, c in zip(desc, case["calls"]) if d.endswith("unequal")}),
                keys=[c["key"] for c in case["calls"]], param_values=[v for vs in values for v in vs][:40])
     _compare_arrays(rec, "scatter_ref", allp, alls, ref_nodes, ref_edges, m, tag)
+    # derived arrays too (axial conductances): a module whose TABLES hold the reference scatter must give identical arrays
+    try:
+        m2 = copy.deepcopy(m)
+        m2.delete_trainables()
+        for col in ref_nodes.columns:
+            if not col.startswith(("local_", "global_")) and col != "controlled_by_param":
+                m2.nodes[col] = ref_nodes[col].to_numpy()
+        for col in ref_edges.columns:
+            if col.startswith(("IonotropicSynapse_", "TestSynapse_")):
+                m2.edges[col] = ref_edges[col].to_numpy()
+        m2.to_jax()
+        for backend in ("jaxley.stone", "jax.sparse"):
+            a1 = m.get_all_parameters(pstate, voltage_solver=backend)
+            a2 = m2.get_all_parameters([], voltage_solver=backend)
+            bad = [k2 for k2 in a2 if k2 not in a1 or not np.allclose(np.asarray(a1[k2], dtype=float), np.asarray(a2[k2], dtype=float), rtol=1e-12, atol=0, equal_nan=True)]
+            rec.check("scatter_ref", not bad, what="arrays built from trainables differ from arrays built from tables holding the same values",
+                      arrays=bad, backend=backend, **tag)
+    except Refused:
+        pass
     # write_trainables must store exactly what was simulated
     try:
         rec.call("write_back", m.write_trainables, params, where="write_trainables")
